@@ -162,6 +162,7 @@ def netcdf_roundtrip(req):
             a = numpy.ma.array(vals.reshape(shape), mask=mask.reshape(shape), dtype=float if rec['dkind'] == 'f' else int)
         a.soften_mask()
         mpvinputs.TABLE[nm] = a
+    before = {nm: (numpy.ma.getdata(a).copy(), numpy.ma.getmaskarray(a).copy()) for nm, a in mpvinputs.TABLE.items()}
     libs = ('mpilot.libraries.eems.basic', 'mpilot.libraries.eems.netcdf', 'mpilot.libraries.eems.fuzzy', 'mpvinputs')
     src = ''.join('%s = SymInput(Name = "%s")\n' % (nm, nm) for nm in names)
     src += 'W = EEMSWrite(OutFileName = "%s", OutFieldNames = [%s], DimensionFileName = "%s", DimensionFieldName = template)\n' % (out, ', '.join(names), tmpl)
@@ -171,9 +172,14 @@ def netcdf_roundtrip(req):
         p.run()
     except Exception as e:
         return {'facts': [('write: the real EEMSWrite runs (%s: %s)' % (type(e).__name__, str(e)[:160]), False)]}
+    for nm in names:
+        d0, m0 = before[nm]
+        a = mpvinputs.TABLE[nm]
+        same = bool((numpy.ma.getmaskarray(a) == m0).all()) and bool((numpy.ma.getdata(a)[~m0] == d0[~m0]).all())
+        facts.append(('inputs: writing leaves the written result %s as it was (missing cells and non-missing values)' % nm, same))
     union = numpy.zeros(shape, dtype=bool)
     for nm in names:
-        union |= numpy.ma.getmaskarray(mpvinputs.TABLE[nm])
+        union |= before[nm][1]
     with Dataset(out) as ds, Dataset(tmpl) as ts:
         for dname in dims:
             ok = dname in ds.variables and numpy.array_equal(ds[dname][:], ts[dname][:]) and getattr(ds[dname], 'units', None) == 'u_' + dname \
@@ -188,7 +194,7 @@ def netcdf_roundtrip(req):
         except Exception as e:
             facts.append(('read-back: %s can be read back (%s: %s)' % (nm, type(e).__name__, str(e)[:120]), False))
             continue
-        a = mpvinputs.TABLE[nm]
+        a = numpy.ma.array(before[nm][0], mask=before[nm][1])
         facts.append(('read-back: %s has the written shape %s (got %s)' % (nm, list(shape), list(b.shape)), tuple(b.shape) == shape))
         facts.append(('read-back: %s has the written element kind' % nm, b.dtype.kind in ('f',) if rec['dkind'] == 'f' else b.dtype.kind in ('i', 'u')))
         if tuple(b.shape) == shape:
